@@ -125,8 +125,16 @@ def run(index, tier="quick", seed=0) -> Result:
         if found is None and stores:
             plain = [v for sl, v in stores if not sl.startswith("~")]
             found = plain[0] if plain else None
+        dens_forms = (f"density * self.{want}", f"self.{want} * density")
+        whole_dens = any(isinstance(n_, ast.AugAssign) and isinstance(n_.op, ast.Mult) and isinstance(n_.target, ast.Name) and "density" in ast.unparse(n_.value)
+                         for n_ in ast.walk(fn.node))
         if found == f"self.{want}":
             res.ok("FF-2", f"{label}:F(0)")
+        elif found in dens_forms and not whole_dens:
+            res.ok("FF-2", f"{label}:F(0)")          # the density is applied part by part (FF-1 checks that every part has it)
+        elif found in dens_forms:
+            res.bad("FF-2", f"{label}:F(0):density-twice", where, f"{label}: the zero-q branch stores `{found}` and the whole array is multiplied by the density "
+                    "again: F(0) = density^2 * " + want)
         else:
             res.bad("FF-2", f"{label}:F(0)", where, f"{label}: the zero-q branch stores `{found}`, expected self.{want}")
         # FF-4 phases
